@@ -58,13 +58,19 @@ AddOutcomes(c, s, ev) ==
               THEN same \cup start("maybe")
               ELSE start("no")
     ELSE IF ~exists \/ s.tr[k].next # ev.cid \/ s.tr[k].from # ev.from THEN same
-         ELSE LET adv(nb) == [s EXCEPT !.tr[k].next = ev.cid + 1, !.tr[k].tick = s.tick, !.tr[k].bad = nb] IN
+         ELSE LET adv(nb) == [s EXCEPT !.tr[k].next = ev.cid + 1, !.tr[k].tick = s.tick, !.tr[k].bad = nb]
+                  \* CODE: addLocked, validator.AddChunk = false: a block of the main file failed its
+                  \* checksum; the stream is dropped (no longer tracked, temporary directory removed)
+                  dropped == {[st |-> [s EXCEPT !.tr = Without(@, k), !.tmp = @ \ {<<k, s.tr[k].from>>}],
+                               ret |-> FALSE, fin |-> FALSE]}
+              IN
               IF corruptMain
-                THEN \* refused by the validator now (not saved), or saved and noticed at the end
-                     (IF s.removed THEN AfterRecord([removed |-> TRUE], adv("yes"), ev, "yes")
-                      ELSE {[st |-> adv("yes"), ret |-> FALSE, fin |-> FALSE]})
+                THEN \* noticed by the validator now, or saved and noticed with a later chunk / at the end
+                     \* (the validator checks a block once the following block has arrived)
+                     (IF s.removed THEN AfterRecord([removed |-> TRUE], adv("yes"), ev, "yes") ELSE dropped)
                      \cup AfterRecord([removed |-> s.removed], adv("yes"), ev, "yes")
                 ELSE AfterRecord([removed |-> s.removed], adv(s.tr[k].bad), ev, s.tr[k].bad)
+                     \cup (IF s.tr[k].bad = "yes" /\ ev.main /\ ~s.removed THEN dropped ELSE {})
 
 \* CODE: Chunk.Tick + gc
 TickStep(c, s) ==
